@@ -337,6 +337,78 @@ Proof.
   apply IH. apply smooth1_preserves. exact I.
 Qed.
 
+(* ------------------------------------------------------------------ client removal of a degree-2 junction *)
+Theorem remove_junction_preserves g T j g' :
+  is_tree g -> leaves_are g T -> remove_junction j g = Some g' ->
+  is_tree g' /\ leaves_are g' T /\ deg g' j = 0 /\ forall x, x <> j -> deg g' x = deg g x.
+Proof.
+  intros Ht Hl H. unfold remove_junction in H.
+  destruct (Nat.eqb_spec (deg g j) 2) as [Hj|]; [|discriminate].
+  destruct (nbr j g) as [a|]; [|discriminate].
+  destruct (contract_any_spec g a j g' Ht H) as (Ht' & Hne & D).
+  assert (Dj : deg g' j = 0) by (rewrite (D j), Nat.eqb_refl; reflexivity).
+  assert (Dx : forall x, x <> j -> deg g' x = deg g x).
+  { intros x Hx. rewrite (D x). destruct (Nat.eqb_spec x j); [contradiction|].
+    destruct (Nat.eqb_spec x a) as [->|]; lia. }
+  split; [exact Ht'|]. split; [|split; assumption].
+  intro x. rewrite (Hl x). destruct (Nat.eq_dec x j) as [->|Hx]; [lia|]. rewrite (Dx x Hx). tauto.
+Qed.
+
+(* the removed junction's two connectors have become one connector between its two former neighbours *)
+Example remove_junction_merges_connectors :
+  (* chain of three junctions 10 - 11 - 12 between four terminals, in the three connector orientations *)
+  remove_junction 11 [(10, 1); (2, 10); (11, 10); (11, 12); (12, 3); (4, 12)] = Some [(10, 1); (2, 10); (10, 12); (12, 3); (4, 12)] /\
+  remove_junction 11 [(10, 1); (2, 10); (10, 11); (12, 11); (12, 3); (4, 12)] = Some [(10, 1); (2, 10); (12, 10); (12, 3); (4, 12)] /\
+  remove_junction 11 [(10, 1); (2, 10); (10, 11); (11, 12); (12, 3); (4, 12)] = Some [(10, 1); (2, 10); (10, 12); (12, 3); (4, 12)] /\
+  (* a junction next to a terminal: terminal 1 - 11 - 10 *)
+  remove_junction 11 [(1, 11); (11, 10); (10, 2); (10, 3)] = Some [(1, 10); (10, 2); (10, 3)] /\
+  (* guard: a junction with three connectors is left alone *)
+  remove_junction 10 [(1, 11); (11, 10); (10, 2); (10, 3)] = None.
+Proof. vm_compute. repeat split. Qed.
+
+Theorem cop_preserves T g o : tree_inv g T -> tree_inv (apply_cop T g o) T.
+Proof.
+  intros [Ht Hl]. destruct o as [h|j]; cbn [apply_cop].
+  - exact (C12_ops_step T g h (conj Ht Hl)).
+  - destruct (remove_junction j g) as [g'|] eqn:E; cbn [or_else]; [|split; assumption].
+    destruct (remove_junction_preserves g T j g' Ht Hl E) as (A & B & _). split; assumption.
+Qed.
+
+Theorem client_ops_preserve T ops : forall g,
+  is_tree g -> leaves_are g T -> is_tree (run_cops T g ops) /\ leaves_are (run_cops T g ops) T.
+Proof.
+  induction ops as [|o r IH]; intros g Ht Hl; unfold run_cops in *; cbn [fold_left]; [tauto|].
+  destruct (cop_preserves T g o (conj Ht Hl)) as [Ht' Hl']. apply IH; assumption.
+Qed.
+
+(* non-vacuity: remove the middle junction of a chain, split an end junction, remove the next degree-2 junction *)
+Example client_ops_nonvacuous :
+  let T := [1; 2; 3; 4] in
+  let g := [(10, 1); (2, 10); (11, 10); (11, 12); (12, 3); (4, 12)] in
+  is_tree_with_leaves g T = true /\
+  run_cops T g [CRemoveJunction 11; CHop (SplitJunction 12 13 [3; 4]); CRemoveJunction 12] =
+    [(10, 1); (2, 10); (10, 13); (13, 3); (4, 13)] /\
+  is_tree_with_leaves (run_cops T g [CRemoveJunction 11; CHop (SplitJunction 12 13 [3; 4]); CRemoveJunction 12]) T = true.
+Proof. vm_compute. repeat split. Qed.
+
+(* the defective variant (surviving connector left on the deleted junction): the hyperedge falls apart - the witness is the
+   chain of the seeded demonstration, four terminals and three junctions, middle junction removed *)
+Theorem remove_junction_wrong_end_refuted :
+  exists g T j g',
+    is_tree g /\ leaves_are g T /\ deg g j = 2 /\ remove_junction_wrong_end j g = Some g' /\
+    ~ connected g' /\ ~ leaves_are g' T /\ is_tree_with_leaves g' T = false.
+Proof.
+  exists [(10, 1); (2, 10); (11, 10); (11, 12); (12, 3); (4, 12)], [1; 2; 3; 4], 11,
+         [(10, 1); (2, 10); (11, 10); (12, 3); (4, 12)].
+  assert (E : is_tree_with_leaves [(10, 1); (2, 10); (11, 10); (11, 12); (12, 3); (4, 12)] [1; 2; 3; 4] = true) by (vm_compute; reflexivity).
+  apply tree_checker_sound_complete in E. destruct E as (Ec & Ea & El).
+  split; [split; assumption|]. split; [exact El|]. split; [vm_compute; reflexivity|]. split; [vm_compute; reflexivity|].
+  split; [|split].
+  - intro K. apply connectedb_spec in K. vm_compute in K. discriminate.
+  - intro K. apply leavesb_spec in K. vm_compute in K. discriminate.
+  - vm_compute. reflexivity.
+Qed.
+
 (* ------------------------------------------------------------------ all logged operations *)
 Theorem seg_op_preserves g T o st' :
   is_bridge_op o = false -> tree_inv g T -> apply_sop (g, T) o = Some st' -> tree_inv (fst st') (snd st').
